@@ -43,6 +43,15 @@ class Opq:
         return '<%s>' % self.text
 
 
+class Closure(Opq):
+    """a nested def met while walking: still opaque to every rule that does not ask, but carries the ast and the environment it closes over"""
+    __slots__ = ('fn', 'env')
+
+    def __init__(self, text, fn, env):
+        Opq.__init__(self, text)
+        self.fn, self.env = fn, env
+
+
 class Term:
     """uninterpreted symbolic term: op applied to args (args may be Terms, Lins, constants)"""
     __slots__ = ('op', 'args')
@@ -169,6 +178,8 @@ class Evaluator:
             if is_sym_bool(a) and is_sym_bool(b) and isinstance(e.op, ast.BitOr):
                 return ('or', (a, b))
             if isinstance(a, str) and isinstance(b, str) and isinstance(e.op, ast.Add):
+                return a + b
+            if isinstance(a, tuple) and isinstance(b, tuple) and not is_sym_bool(a) and not is_sym_bool(b) and isinstance(e.op, ast.Add):
                 return a + b
             if isinstance(e.op, ast.Mult) and ((isinstance(a, str) and isinstance(b, int)) or (isinstance(a, int) and isinstance(b, str))) and \
                     not isinstance(a, bool) and not isinstance(b, bool) and (a if isinstance(a, int) else b) < 4096:
@@ -389,6 +400,9 @@ class Evaluator:
                 return args[0][args[1]]
             if len(args) == 3:
                 return args[2]
+        if ft == 'sorted' and len(args) == 1 and not kw and isinstance(args[0], tuple) and not is_sym_bool(args[0]) and \
+                (all(isinstance(x, str) for x in args[0]) or all(isinstance(x, int) for x in args[0])):
+            return tuple(sorted(args[0]))
         if ft == 'reversed' and len(args) == 1 and isinstance(args[0], tuple) and not is_sym_bool(args[0]):
             return tuple(reversed(args[0]))
         if ft == 'enumerate' and len(args) == 1 and isinstance(args[0], tuple) and not is_sym_bool(args[0]):
@@ -454,7 +468,7 @@ class Evaluator:
             return [Path(env, conds, eff, None)]
         if isinstance(st, (ast.FunctionDef, ast.ClassDef)):
             env = dict(env)
-            env[st.name] = Opq('<local %s>' % st.name)
+            env[st.name] = Closure('<local %s>' % st.name, st, env) if isinstance(st, ast.FunctionDef) else Opq('<local %s>' % st.name)
             return [Path(env, conds, eff, None)]
         if isinstance(st, ast.Delete):
             env = dict(env)
